@@ -175,13 +175,15 @@ template<class S>
 struct DomProd2 {
     std::vector<S> A, B;
     std::string nm;
-    DomProd2(const std::vector<S>& a, const std::vector<S>& b, const std::string& n) : A(a), B(b), nm(n) {}
+    DomProd2(const std::vector<S>& a, const std::vector<S>& b, const std::string& n) : A(a), B(b), nm(n), bfast(false) {}
+    bool bfast;
     std::uint64_t size() const { return std::uint64_t(A.size()) * B.size(); }
     void get(std::uint64_t i, S& a, S& b, S& c) const {
-        a = A[i % A.size()];
-        b = B[i / A.size()];
+        if (bfast) { b = B[i % B.size()]; a = A[i / B.size()]; }
+        else { a = A[i % A.size()]; b = B[i / A.size()]; }
         c = a;
     }
+    DomProd2 swapped() const { DomProd2 d(*this); d.bfast = true; return d; }
     std::string name() const { return nm; }
     bool exhaustive() const { return false; }
 };
